@@ -1,16 +1,57 @@
-//! eng-codec: see /verif/DESIGN.md section 5 and /verif/harness/ENGINE_GUIDE.md
-use vmon_core::{ChildCtx, Engine, Plan, Shard, Tier};
+//! eng-codec: runtime monitors for the binary / schema / CBOR codecs
+//! (C05, C16, C10, C17). See /verif/DESIGN.md section 5 and ENGINE_GUIDE.md.
+mod c05;
+mod c05_fx;
+mod c05_gen;
+mod c05_id;
+mod c05_tx;
+mod util;
+
+use vmon_core::{ChildCtx, Engine, Plan, SanTier, Shard, Tier};
+
+#[global_allocator]
+static A: vmon_core::alloc::Counting = vmon_core::alloc::Counting;
 
 struct E;
 
 impl Engine for E {
     fn name(&self) -> &'static str { "eng-codec" }
 
-    fn props(&self) -> Vec<&'static str> { vec![] }
+    fn props(&self) -> Vec<&'static str> { vec!["C05"] }
 
-    fn plan(&self, _prop: &str, _tier: Tier) -> Plan { Plan::default() }
+    fn plan(&self, prop: &str, tier: Tier) -> Plan {
+        let quick = tier == Tier::Quick;
+        let mut p = Plan { crash_is_violation: true, hang_is_violation: true, ..Plan::default() };
+        match prop {
+            "C05" => {
+                let n = c05_gen::registry().len() as u64;
+                p.cases = if quick { n * 6 } else { n * 110 };
+                p.timeout_s = if quick { 600 } else { 3600 };
+                p.isolated_timeout_s = 120;
+                p.san = vec![SanTier { name: "nodebug", shards: 16, cases: if quick { n } else { n * 12 }, timeout_s: if quick { 600 } else { 3600 }, budget_s: 0 }];
+                p.rule = "case = one registered type (round-robin over the registry): a value built with the library's constructors is round-tripped, then its encoding is decoded under truncation at sampled offsets, a 0..255 sweep of the first byte, length-field inflation (1/2/4/8-byte big-endian windows set to 2^k, 2^32-1, 2^64-1), 16-bit bitmap sweeps, and ~260 (30 for crypto-heavy types) random mutations (bit flips, byte sets, splices with a second value, block swaps/duplications, insert/delete, pure random bytes); evaluations = judged decodes + judged value round-trips; distinct_nontrivial = distinct (type, valid encoding) seeds for which at least one mutated input decoded successfully".into();
+                p.assumptions = vec![
+                    "counting global allocator (vmon_core::alloc) measures peak live bytes per decode on the decoding thread".into(),
+                    "values without PartialEq are compared through Debug rendering and re-encoding".into(),
+                    "identity-pipeline fixtures use library functions that draw from thread_rng; witnesses are stored in full in the replay file".into(),
+                ];
+                p.floors = vec![("max.types.exercised".into(), n), ("roundtrip".into(), if quick { 5000 } else { 100_000 }), ("decode_ok_changed".into(), if quick { 50_000 } else { 1_000_000 }), ("mut.inflate".into(), 10_000), ("mut.tag_sweep".into(), 10_000), ("mut.truncate_at".into(), 10_000)];
+                for e in c05_gen::registry() {
+                    p.floors.push((format!("type.{}.decode_ok", e.name), 50));
+                    p.floors.push((format!("type.{}.roundtrip", e.name), 20));
+                }
+            }
+            _ => {}
+        }
+        p
+    }
 
-    fn run_child(&self, _ctx: &ChildCtx, out: &mut Shard) { out.inconclusive.push("not implemented".into()); }
+    fn run_child(&self, ctx: &ChildCtx, out: &mut Shard) {
+        match ctx.prop.as_str() {
+            "C05" => c05::run(ctx, out),
+            _ => out.inconclusive.push("unknown property".into()),
+        }
+    }
 }
 
 fn main() { vmon_core::main_engine(&E) }
